@@ -13,6 +13,31 @@ def b2n (b : Bool) : Nat := if b then 1 else 0
 def showTriples (l : List (Nat × Nat × Nat)) : String :=
   " ".intercalate (toString l.length :: l.map (fun (a, b, c) => s!"{a} {b} {c}"))
 
+/-- all tuples in `{0..n-1}^k`, row-major -/
+def tuples (n : Nat) : Nat → List (List Nat)
+  | 0 => [[]]
+  | k+1 => (tuples n k).flatMap (fun t => (List.range n).map (fun x => t ++ [x]))
+
+/-- reduced density tensor `⟨bra| pattern |ket⟩` for every index tuple (Spec, exact).
+    `mode = 1`: spin-summed over the spin groups, letters range over spatial orbitals;
+    `mode = 0`: spin-orbital, letters range over `2*norb` FQE spin orbitals (alpha block, beta block). -/
+def rdmSpec (norb mode : Nat) (bra ket : Vec) (groups : List Nat) (pat : List (Nat × Bool)) : List GQ :=
+  let nl := groups.length
+  let ngroups := (groups.foldl max 0) + 1
+  let sbra := iota norb bra
+  let sket := iota norb ket
+  if mode == 1 then
+    (tuples norb nl).map fun idx =>
+      (tuples 2 ngroups).foldl (fun acc spins =>
+        let term : Term := pat.map fun (l, dg) => (2 * idx.getD l 0 + spins.getD (groups.getD l 0) 0, dg)
+        acc + inner sbra (applyOpSpec [(1, term)] sket)) 0
+  else
+    (tuples (2 * norb) nl).map fun idx =>
+      let term : Term := pat.map fun (l, dg) =>
+        let p := idx.getD l 0
+        ((if p < norb then 2 * p else 2 * (p - norb) + 1), dg)
+      inner sbra (applyOpSpec [(1, term)] sket)
+
 def cmd (name : String) : P String := do
   match name with
   | "ping" => return "pong"
@@ -125,6 +150,13 @@ def cmd (name : String) : P String := do
   | "binom" => do
       let n ← nat; let k ← nat
       return toString (binom n k)
+  | "rdm" => do
+      let norb ← nat; let mode ← nat; let bra ← vec; let ket ← vec
+      let groups ← natList
+      let n ← nat
+      let pat ← many n (do let l ← nat; let d ← nat; return (l, d != 0))
+      let t := rdmSpec norb mode bra ket groups pat
+      return " ".intercalate (toString t.length :: t.map GQ.toStr)
   | _ => throw s!"unknown command {name}"
 
 def handle (line : String) : String :=
